@@ -22,6 +22,7 @@ fn main() {
     vh::quiet_panics();
     let code = match args[1].as_str() {
         "reader-hist" => vh::reader_hist::run(&opts),
+        "writer-hist" => vh::writer_hist::run(&opts),
         other => {
             eprintln!("unknown subcommand {other}");
             2
